@@ -71,7 +71,7 @@ def run(ctx):
                 inp = index.get((shard, idx))
                 obs = "obs"
                 import re
-                m = re.search(r"\(%d(?:%%nat)?\s*,\s*\[([^\]]*)\]" % idx, raw)
+                m = re.search(r"\(\s*%d(?:%%nat)?\s*,\s*\[([^\]]*)\]" % idx, raw)
                 if m:
                     codes = [int(x) for x in re.findall(r"\d+", m.group(1))]
                     obs = "+".join(KINDS.get(c, str(c)) for c in codes)
